@@ -10,7 +10,11 @@ K2 = (F(1, 3), F(11, 2), (F(1, 2), F(1), F(7, 3), F(5)))
 K3 = (F(-3), F(-1, 2), (F(-5, 2), F(-2), F(-4, 3), F(-1)))
 BIG = 10 ** 30
 K4 = (F(0), F(3 * BIG + 1, BIG), (F(BIG + 7, 3 * BIG), F(BIG + 1, BIG - 1), F(5 * BIG + 3, 3 * BIG + 1), F(7 * BIG - 1, 3 * BIG)))
-ALPHABETS = {"K0": K0, "K1": K1, "K2": K2, "K3": K3, "K4": K4}
+# far from the origin relative to the knot spacing (magnitude / spacing > 1e6), exact values
+K5 = (F(5000000), F(5000004), (F(5000001), F(10000003, 2), F(5000002), F(15000010, 3)))
+# very far from the origin (1e9) with unit-size spans: exact data only
+K6 = (F(10 ** 9), F(10 ** 9 + 5), (F(10 ** 9 + 1), F(2 * 10 ** 9 + 5, 2), F(10 ** 9 + 3), F(3 * 10 ** 9 + 13, 3)))
+ALPHABETS = {"K0": K0, "K1": K1, "K2": K2, "K3": K3, "K4": K4, "K5": K5, "K6": K6}
 
 GENERIC = (2, -3, 5, -7, 11, -13, 17, -19, 23, -29, 31, -37, 41, -43, 47, -53, 59, -61, 67, -71)
 GENERIC2 = (3, 1, -4, 1, -5, 9, -2, 6, -5, 3, 5, -8, 9, -7, 9, 3, -2, 3, 8, -4)
@@ -74,13 +78,17 @@ def small_weight_vectors(n, nmax):
         yield list(w)
 
 
-def params(U, p, outside=False):
+def params(U, p, outside=False, near=False):
     """every knot, both ends, p+2 equally spaced interior points of every span (+ outside points)"""
     ks = sorted(set(U))
     out = list(ks)
     for a, b in zip(ks[:-1], ks[1:]):
         out += [a + (b - a) * F(t + 1, p + 3) for t in range(p + 2)]
     out = sorted(set(out))
+    if near:
+        # exact parameters a hair (1e-12) left and right of every interior knot
+        out += [k + d for k in ks[1:-1] for d in (-F(1, 10 ** 12), F(1, 10 ** 12))]
+        out = sorted(set(out))
     if outside:
         out += [ks[0] - 1, ks[-1] + F(1, 2)]
     return out
